@@ -357,8 +357,29 @@ def run(tier):
     cannot = [e for e in enc if e.startswith("EXEC-ERROR")]
     if cannot:
         log("UNDISCHARGED: the MIR executor cannot run the current JSON parser (%s) — property not decided on this tree" % cannot[0])
-        write_evidence(ID, tier, {"evaluations": len(docs), "distinct_nontrivial": 0, "explanation": "encoding cannot execute the current code: " + cannot[0], "samples": [cannot[0]]}, [], time.time() - t0, 0)
-        return 0
+        # native probe (sampling, reported as such; it discharges nothing): the documents above plus boundary documents, real parser vs RFC 8259
+        extra = ["[ ]", "[\t]", "[\n]", "[[ ]]", "{ }", "{\n}", "[]\x0c", "{}\x0c", "1 \x0c", "\x0c1", "1\x0b", "\u00a01", "1\u00a0", "\u20281", "[1\x0c]", "\ufeff1", "[1, ]", "[ ,1]", "{\"a\" :1}", "{\"a\": 1 ,\"b\":2}",
+                 "\"\\u12\"", "\"\\ud800\"", "\"\\udc00\\ud800\"", "\"\x1f\"", "\"\x7f\"", "-", "-0", "0.", ".0", "1e", "1e+", "01", "+1", "1.0e-2", "tRue", "nulL", "\"\\/\"", "\"\\a\""]
+        probe = [(t, d) for t, d in docs] + [(t, None) for t in extra]
+        nviol = 0
+        for t, d in probe:
+            got_d, got_r = native(exe_dev, t, d), native(exe_rel, t, d)
+            want = py_accepts(t, d)
+            key = classify(t) if not want else None
+            if key and (ID, key) in known:
+                continue
+            if any(g == "PANIC" or (g == "OK") != want for g in (got_d, got_r)):
+                os.makedirs(REPLAY_DIR, exist_ok=True)
+                path = os.path.join(REPLAY_DIR, "C13-json.json")
+                with open(path, "w") as f:
+                    json.dump({"property": ID, "engine": "M", "text": t, "depth": d, "native_dev": got_d, "native_release": got_r, "rfc8259_valid": want,
+                               "check": "native probe (the encoding cannot execute this tree)", "how": "./check C13 --replay " + path}, f, indent=1)
+                log("VIOLATION property=%s replay=%s" % (ID, path))
+                log("   Value::parse(%r) -> %s natively; RFC 8259 says %s (native probe)" % (t, got_d, "valid" if want else "invalid"))
+                nviol = 1
+                break
+        write_evidence(ID, tier, {"evaluations": len(docs), "distinct_nontrivial": 0, "explanation": "encoding cannot execute the current code: " + cannot[0] + "; native probe of %d documents only" % len(probe), "samples": [cannot[0]]}, [], time.time() - t0, nviol)
+        return 1 if nviol else 0
     bad = [(docs[i], nat[i], enc[i]) for i in range(len(docs)) if nat[i] != enc[i]]
     if bad:
         log("MACHINERY-ERROR: translator validation failed: encoding and native parser disagree on %d of %d documents, e.g. %r" % (len(bad), len(docs), bad[0]))
